@@ -6,6 +6,7 @@ Ops: arith A:ver:val op X   (op in add radd sub rsub iadd isub or and xor shl sh
      ctor X ver|-            (integer branch of IPAddress.__init__)
      conv A:ver:val          (int, __index__, hex, bool)"""
 import operator
+import netaddr
 
 from common import Case, W, value_classes, rand_value, errname, tf, harvest_literals, boundary_values
 import common
@@ -377,7 +378,15 @@ def impl(c):
         _, x, ver = a
         x = _int(x)
         try:
-            r = IPAddress(x) if ver is None else IPAddress(x, ver)
+            # the parsing flags say nothing about an INTEGER argument: every combination is passed (by a stable hash
+            # of the value) and must give what no flags give (seed C14-r11-2 rendered the integer as text under ZEROFILL)
+            fl = [None, 0, netaddr.INET_PTON, netaddr.ZEROFILL, netaddr.INET_PTON | netaddr.ZEROFILL, netaddr.ZEROFILL][
+                (abs(x) % 1000003 + (ver or 0)) % 6]
+            common.COUNTS['call/ctor-int-flags-%s' % fl] += 1
+            if fl is None:
+                r = IPAddress(x) if ver is None else IPAddress(x, ver)
+            else:
+                r = IPAddress(x, flags=fl) if ver is None else IPAddress(x, ver, fl)
             return _show(r)
         except Exception as e:
             return '!' + errname(e)
